@@ -35,11 +35,13 @@ FAMILY = [
  ('loop_elseif', '<loop set="n" value="v"><if case="{var:v} == 1">A<elseif case="{var:v} == 2" />B<else />C</if></loop>', 7, 'L("ABC")'),
  ('loop_sort',  '<loop value="r"><loop set="r" value="c" sort="ascend">{var:c};</loop></loop>', 6, 'if (leaf_less(1, 0)) { E(1); L(";"); E(0); L(";"); } else { E(0); L(";"); E(1); L(";"); }'),
  ('loop_if',    '<loop set="a" value="v"><if case="1">{var:v}</if></loop>', 1, 'E(0); E(1)'),
+ # a fully parenthesised expression inside a loop still sees the loop variable
+ ('loop_math_paren', '<loop set="n" value="v">{math:({var:v}+1)};<if case="({var:v} == 2)">T</if></loop>', 7, 'L("2;3;T4;")'),
  # an object loop followed by an array loop at the same level, both over unprintable items: the first prints the member KEY, the second has no key and reproduces the tag
  ('loop_obj_then_array', '<loop set="g" value="x">{var:x}:</loop>|<loop set="a" value="x">{var:x},</loop>', 8, 'L("k:|{var:x},")'),
  ('loop_sorted_obj_then_array', '<loop set="g" value="x" sort="ascend">{var:x}:</loop>|<loop set="a" value="x">{var:x},</loop>', 8, 'L("k:|{var:x},")'),
 ]
-HEAVY = ('loop_obj_then_array', 'loop_sorted_obj_then_array', 'loop_sort', 'loop_array', 'loop_if', 'loop_obj', 'loop_set', 'inline_if', 'svar', 'index_path', 'array_index')
+HEAVY = ('loop_math_paren', 'loop_obj_then_array', 'loop_sorted_obj_then_array', 'loop_sort', 'loop_array', 'loop_if', 'loop_obj', 'loop_set', 'inline_if', 'svar', 'index_path', 'array_index')
 def B(n):
     return {'Next': n + 2, 'h_render|build|leaves_intact|L|E|R|leaf_less': n + 24, 'Copy': 40, 'IsEqual': 10, 'Dispose': 4, 'parse|parse.*|checkLoopVariable|getOperation|isExpression|parseExpressions|parseValue': n + 2,
             'vf_mem.*': 200, 'SetToZero': 24, 'render.*|getValue|evaluate.*|GetExpressionValue|isEqual|Render': 6, 'Write|write': n + 2, 'EscapeHTMLSpecialChars': 4, 'Hash': 3, 'find': 4,
